@@ -462,7 +462,7 @@ pub fn run(args: &Args) {
             finish(&ev);
         }
     }
-    let n = std::env::var("VERIF_CASES").ok().and_then(|s| s.parse().ok()).unwrap_or(args.tier.pick(30_000u32, 1_000_000u32));
+    let n = std::env::var("VERIF_CASES").ok().and_then(|s| s.parse().ok()).unwrap_or(args.tier.pick(120_000u32, 3_000_000u32));
     let survey = survey_limit();
     let evc = RefCell::new(&mut ev);
     let res = search(args.seed, n, &tape_strategy(260), |tape| {
